@@ -17,7 +17,7 @@ pub fn property() -> Property {
     Property {
         id: "C12",
         level: "exploration",
-        rule: "(valid) reference positions (all 16 right sets, e.p. squares, clocks up to u32::MAX) written by the harness's own FEN writer in 6- and 4-field form: accepted, decoded square by square / side / rights / e.p. / clocks (defaults 0 and 1), written back as the canonical text, re-read identically; (invalid) one grammar fault per case from 14 classes (incl. Unicode look-alikes of FEN characters): Fen::from_str is Err and Fen::is_valid false; (total) arbitrary Unicode strings and byte-level mutations of valid FENs never panic in Fen::from_str, Fen::is_valid, Bitboard::from_fen_string. Non-trivial = distinct FEN text with rights / e.p. / large clocks (valid), distinct faulty text (invalid), distinct mutated text that is not valid (total)",
+        rule: "(valid) reference positions (all 16 right sets, e.p. squares, clocks up to u32::MAX) written by the harness's own FEN writer in 6- and 4-field form: accepted, decoded square by square / side / rights / e.p. / clocks (defaults 0 and 1), written back as the canonical text, re-read identically; (invalid) one grammar fault per case from 14 classes (incl. Unicode look-alikes of FEN characters): Fen::from_str is Err and Fen::is_valid false; (writer_after_history) the writer on ONE board object that went through a whole game with legality filtering (make/unmake) and tried-and-taken-back moves before every move: canonical FEN of the reference position at every ply, square by square; (total) arbitrary Unicode strings and byte-level mutations of valid FENs never panic in Fen::from_str, Fen::is_valid, Bitboard::from_fen_string. Non-trivial = distinct FEN text with rights / e.p. / large clocks (valid), distinct faulty text (invalid), distinct mutated text that is not valid (total)",
         assumptions: &["mutations that stay inside the grammar the code documents (e.p. on any rank, the literal 'startpos', surrounding white space) are not asserted to fail"],
         parts: vec![
             Part {
@@ -43,6 +43,14 @@ pub fn property() -> Property {
                 single_shard: false, supplementary: false,
                 run: |cfg| run_part(cfg, total_strategy(), |s| TextCase { text: s.clone() }, check_total),
                 replay: |v| replay_case::<TextCase, _>(v, check_total),
+            },
+            Part {
+                name: "writer_after_history",
+                quick: 6_000,
+                thorough: 150_000,
+                single_shard: false, supplementary: false,
+                run: |cfg| run_part(cfg, (gen::raw_playout(60), any::<u16>()), |(r, probe)| hist_case(r, *probe), check_writer_after_history),
+                replay: |v| replay_case::<HistCase, _>(v, check_writer_after_history),
             },
             crate::props::fuzz_corpus_part!("fen"),
         ],
@@ -427,5 +435,60 @@ pub fn check_total(c: &TextCase, ctx: &mut Ctx) -> Result<(), String> {
         ctx.nontrivial(&c.text);
     }
     ctx.sample(|| serde_json::json!({"text": c.text, "accepted": v}));
+    Ok(())
+}
+
+// ------------------------------------------------------------------------------------------------
+// the writer on a board that has a history (the boards of the parts above are freshly decoded)
+
+#[derive(Debug, Clone, Serialize, Deserialize)]
+pub struct HistCase {
+    pub game: gen::Game,
+    pub probe: u16,
+}
+
+fn hist_case(r: &gen::RawPlayout, probe: u16) -> HistCase {
+    // make/unmake carries 12 bits of the half-move clock (see C03): keep clock + length within them
+    let g = gen::play(r, ClockDomain::Unmake);
+    let mut start = g.start.clone();
+    start.half = start.half.min(4095 - g.moves.len() as u64 - 1);
+    HistCase { game: gen::Game { start: start.fen(), moves: g.moves.iter().map(crate::refmodel::Mv::uci).collect() }, probe }
+}
+
+pub fn check_writer_after_history(c: &HistCase, ctx: &mut Ctx) -> Result<(), String> {
+    let mut p = Pos::from_fen(&c.game.start).ok_or_else(|| format!("HARNESS: bad start {}", c.game.start))?;
+    let mut b = eng::board_from_pos(&p);
+    let mut played: Vec<String> = Vec::new();
+    let mut tried = 0usize;
+    for (i, m) in c.game.moves.iter().enumerate() {
+        let mv = crate::refmodel::Mv::parse(m).ok_or_else(|| format!("HARNESS: bad move {m}"))?;
+        // what every user of the board does before moving: legality filtering makes and unmakes each candidate
+        let em = eng::find_move(&mut b, mv).ok_or_else(|| format!("HARNESS: {m} not generated at {}", p.fen()))?;
+        // and some candidates are tried and taken back explicitly
+        let pseudo = b.generate_pseudo_legal_moves();
+        if !pseudo.is_empty() {
+            let mut t = pseudo[(c.probe as usize + i * 7919) % pseudo.len()];
+            b.make(t);
+            b.unmake(t);
+            t = pseudo[(c.probe as usize * 31 + i) % pseudo.len()];
+            let _ = b.is_move_legal(t);
+            tried += 2;
+        }
+        b.make(em);
+        p = p.apply(mv);
+        played.push(m.clone());
+        let written = Fen::from(&b).fen;
+        if written != p.fen() {
+            return Err(format!("after {} {played:?} (each preceded by legality filtering on the same board) the writer gives {written:?}, the position is {:?}", c.game.start, p.fen()));
+        }
+        compare_board(&b, &p, &format!("{} {played:?}", c.game.start))?;
+        ctx.evals(1);
+    }
+    if played.len() >= 4 {
+        ctx.class(&format!("plies_{}", (played.len() / 10 * 10).min(50)));
+        ctx.nontrivial((c.game.start.clone(), c.game.moves.clone()));
+    }
+    let _ = tried;
+    ctx.sample(|| serde_json::json!({"start": c.game.start, "plies": played.len(), "final": p.fen()}));
     Ok(())
 }
